@@ -415,7 +415,13 @@ impl<'a> ExprAST<'a> {
 
 pub struct Parser<'a> {
     tokenizer: Tokenizer<'a>,
+    depth: usize,
 }
+
+// Upper bound on the depth of the AST a parser builds (nested delimiters, prefix
+// chains, conditional branches and operator chains all count). Parsing, cloning,
+// evaluating, rendering and dropping an AST recurse once per level.
+const MAX_NESTING_DEPTH: usize = 256;
 
 impl<'a> Parser<'a> {
     fn cur_tok(&self) -> Token {
@@ -427,7 +433,16 @@ impl<'a> Parser<'a> {
         tokenizer.next()?;
         Ok(Self {
             tokenizer: tokenizer,
+            depth: 0,
         })
+    }
+
+    fn enter(&mut self) -> Result<()> {
+        self.depth += 1;
+        if self.depth > MAX_NESTING_DEPTH {
+            return Err(Error::NestingTooDeep(MAX_NESTING_DEPTH));
+        }
+        Ok(())
     }
 
     fn is_eof(&self) -> bool {
@@ -492,7 +507,9 @@ impl<'a> Parser<'a> {
     }
 
     fn parse_primary(&mut self) -> Result<ExprAST<'a>> {
+        self.enter()?;
         let lhs = self.parse_token()?;
+        self.depth -= 1;
         if self.tokenizer.cur_token.is_postfix_op_token() {
             let op = self.tokenizer.cur_token.string();
             self.next()?;
@@ -501,7 +518,14 @@ impl<'a> Parser<'a> {
         Ok(lhs)
     }
 
-    fn parse_op(&mut self, exec_prec: i32, mut lhs: ExprAST<'a>) -> Result<ExprAST<'a>> {
+    fn parse_op(&mut self, exec_prec: i32, lhs: ExprAST<'a>) -> Result<ExprAST<'a>> {
+        let depth = self.depth;
+        let ans = self.parse_op_chain(exec_prec, lhs)?;
+        self.depth = depth;
+        Ok(ans)
+    }
+
+    fn parse_op_chain(&mut self, exec_prec: i32, mut lhs: ExprAST<'a>) -> Result<ExprAST<'a>> {
         let mut is_not = false;
         loop {
             if !self.tokenizer.cur_token.is_op_token() {
@@ -516,6 +540,7 @@ impl<'a> Parser<'a> {
                 continue;
             }
             if self.tokenizer.cur_token.is_question_mark() {
+                self.enter()?;
                 self.next()?;
                 let a = self.parse_expression()?;
                 self.expect(":")?;
@@ -530,6 +555,7 @@ impl<'a> Parser<'a> {
                 Token::Operator(op, _) => op,
                 _ => "",
             };
+            self.enter()?;
             self.next()?;
             let mut rhs = self.parse_primary()?;
 
